@@ -1,7 +1,7 @@
 """C04 - no task outlives its scope (structured-concurrency containment)."""
 from hypothesis import strategies as st
 
-from vlib.runner import Check, Outcome
+from vlib.runner import Check, Outcome, InvalidCase
 from vlib.interp import execute, num
 from vlib.probe import Probe
 from vlib.gen import scope_programs, fault_strategy
@@ -169,6 +169,11 @@ def analyse(out, prog, it, oc, exc, ctx, want_fail_checks=True):
     return S, per, leaves
 
 
+@st.composite
+def generation_cases(draw):
+    return {'generations': {'n': draw(st.integers(1100, 3000)), 'width': draw(st.integers(0, 2))}}
+
+
 class C04(Check):
     pid = 'C04'
     level = 'fault_enumeration'
@@ -178,7 +183,8 @@ class C04(Check):
             'failure, notification (delay/flag/date), owner cancelled or closed) with Task.cancel injected at '
             'sampled (thorough: all) activation boundaries of any task. non-trivial = a block with tasks '
             'that ends abnormally, or has volatile children or an accepted late spawn, in a program with '
-            '>=2 blocks or such children; distinct by sha1(program+faults).')
+            '>=2 blocks or such children; distinct by sha1(program+faults). Also scopes kept open by 1100-3000 successive '
+            'generations of children.')
     budgets = {'quick': dict(examples=1600, procs=4), 'thorough': dict(examples=12000, procs=16)}
     level_text = ('Every generated scope tree is executed (and re-executed with cancel() injected at activation '
                   'boundaries); a monitor over the complete event log checks for every block that no event of '
@@ -192,9 +198,63 @@ class C04(Check):
     design_ref = 'DESIGN.md section 3, C04'
 
     def strategy(self, tier):
-        return cases(tier)
+        return st.sampled_from(range(12)).flatmap(lambda k, tier=tier: generation_cases() if k == 0 else cases(tier))
+
+    def generation_case(self, case):
+        """a scope kept open by thousands of successive generations of children (every child starts its successor in the
+        scope before it ends, some generations several at a time): the block is left when the last one has ended - not
+        before, with nobody closed on the way"""
+        import usim
+        from vlib.probe import run_probed
+        out = Outcome()
+        out.evals = 1
+        g_max, width = case['generations']['n'], case['generations']['width']
+        if g_max < 1 or width < 0:
+            raise InvalidCase('generations')
+        ran, closed = [], []
+
+        async def job(scope, k):
+            try:
+                await (usim.time + 1)
+                ran.append(k)
+                if k < g_max:
+                    scope.do(job(scope, k + 1))
+                    if k % 97 == 0:
+                        for j in range(width):
+                            scope.do(side(k, j))
+            except GeneratorExit:
+                closed.append(k)
+                raise
+
+        async def side(k, j):
+            try:
+                await (usim.time + (0.5 + j))
+            except GeneratorExit:
+                closed.append((k, j))
+                raise
+        seen = {}
+
+        async def main():
+            async with usim.Scope() as scope:
+                scope.do(job(scope, 1))
+            seen['left'] = usim.time.now
+        oc, exc, _ = run_probed([main()], probe=Probe(b_step=4000, b_total=40 * g_max + 4000))
+        if oc != 'ok':
+            out.fail('run_outcome', 'generations:%s:%s' % (oc, type(exc).__name__), 'run() ended with %s %r' % (oc, exc))
+        ks = [k for k in range(1, g_max) if k % 97 == 0]
+        want = max([g_max] + ([ks[-1] + 0.5 + (width - 1)] if ks and width else []))
+        if oc != 'ok':
+            pass
+        elif seen.get('left') != want or len(ran) != g_max or closed:
+            out.fail('containment', 'generations:left_early', 'a scope with %d generations of children was left at %r after %d '
+                     'generations; closed on the way: %r' % (g_max, seen.get('left'), len(ran), closed[:3]))
+        out.nontrivial = True
+        out.features.add('thousands_of_generations')
+        return out
 
     def run_case(self, case, tier='quick'):
+        if 'generations' in case:
+            return self.generation_case(case)
         out = Outcome()
         prog = case['prog']
         mk = lambda: Probe(b_step=4000, b_total=40000)  # noqa
